@@ -107,8 +107,24 @@ class SigmaCollection:
             else self.rules
         )
 
-        # Sort rules by reference order
-        self.rules = list(sorted(self.rules))
+        # Sort rules by reference order: every rule comes after all rules it refers to. Being
+        # referenced is only a partial order, therefore a depth-first topological ordering is
+        # required instead of a comparison sort. The order of unrelated rules is preserved.
+        ordered: list[SigmaRule | SigmaCorrelationRule] = []
+        visited: set[int] = set()
+
+        def visit(rule: SigmaRule | SigmaCorrelationRule) -> None:
+            if id(rule) in visited:
+                return
+            visited.add(id(rule))
+            if isinstance(rule, SigmaCorrelationRule):
+                for rule_reference in rule.referenced_rules:
+                    visit(rule_reference.rule)
+            ordered.append(rule)
+
+        for rule in self.rules:
+            visit(rule)
+        self.rules = ordered
 
     @classmethod
     def from_dicts(
